@@ -95,13 +95,20 @@ func runOnce(t *testing.T, p *props.Prop, env *sim.Env) (rec sim.Record) {
 				rec.Infra = fmt.Sprintf("bubble ended abnormally: %v", r)
 			}
 		}()
-		synctest.Test(t, func(t *testing.T) {
-			frand.Reseed(env.Seed)
-			simStart := time.Now()
-			rec = sim.Execute(env, p.Run)
-			rec.SimMS = time.Since(simStart).Milliseconds()
-			done = true
-		})
+		bubble := func(t *testing.T) {
+			synctest.Test(t, func(t *testing.T) {
+				frand.Reseed(env.Seed)
+				simStart := time.Now()
+				rec = sim.Execute(env, p.Run)
+				rec.SimMS = time.Since(simStart).Milliseconds()
+				done = true
+			})
+		}
+		if raceBuild {
+			t.Run(fmt.Sprintf("seed-%d", env.Seed), bubble)
+		} else {
+			bubble(t)
+		}
 	}()
 	rec.WallUS = time.Since(wallStart).Microseconds()
 	rec.Flavour = os.Getenv("VERIF_FLAVOUR")
